@@ -1,6 +1,6 @@
 (* C16 - Message handles are single-use and respect their category.
    Statements only; every proof is `exact <lemma>`. *)
-From Repid Require Import Base Sched Handle HandleProofs.
+From Repid Require Import Base Sched Handle HandleProofs GenSched GenHandle GenHandleProofs.
 
 (* in any sequence of API calls at most one broker call succeeds; once it has, the handle is read-only; a read-only handle never reaches the broker *)
 Theorem C16_single_use : forall pol now sf cs h h' evs lft,
@@ -61,6 +61,34 @@ Theorem C16_eager_stops_body : forall pol now sf h cs1 cs2 h' evs,
   hrun pol now sf h cs1 = (h', evs, true) -> hrun pol now sf h (cs1 ++ cs2) = (h', evs, true).
 Proof. exact eager_stops_body. Qed.
 
+(* the guards, their order and the broker call of the six terminal methods ARE those of repid/message.py (and of the overrides in
+   repid/dependencies/message_dependency.py) at /repo's current source: GenHandle.v is regenerated from them on every run
+   (harness/translate.py, which also insists that the read-only flag is set right after the broker call and nowhere else) *)
+Theorem C16_source_is_model_handle : forall pol h now, h_dep h = false ->
+  gen_msg_ack (h_ro h) (h_cat h) (h_p h) now = wanted pol h HAck now /\
+  gen_msg_nack (h_ro h) (h_cat h) (h_p h) now = wanted pol h HNack now /\
+  gen_msg_reject (h_ro h) (h_cat h) (h_p h) now = wanted pol h HReject now /\
+  gen_msg_reschedule (h_ro h) (h_cat h) (h_p h) now = wanted pol h HReschedule now /\
+  (forall d, gen_msg_retry (h_ro h) (h_cat h) (h_p h) now d = wanted pol h (HRetry d) now) /\
+  (forall d, gen_msg_force_retry (h_ro h) (h_cat h) (h_p h) now d = wanted pol h (HForceRetry d) now).
+Proof. exact gen_msg_eq. Qed.
+
+Theorem C16_source_is_model_dependency : forall pol h now, h_dep h = true ->
+  gen_msg_ack (h_ro h) (h_cat h) (h_p h) now = wanted pol h HAck now /\
+  gen_msg_nack (h_ro h) (h_cat h) (h_p h) now = wanted pol h HNack now /\
+  gen_msg_reject (h_ro h) (h_cat h) (h_p h) now = wanted pol h HReject now /\
+  gen_msg_reschedule (h_ro h) (h_cat h) (h_p h) now = wanted pol h HReschedule now /\
+  (forall d, gen_dep_retry pol (h_ro h) (h_cat h) (h_p h) now d = wanted pol h (HRetry d) now) /\
+  (forall d, gen_dep_force_retry pol (h_ro h) (h_cat h) (h_p h) now d = wanted pol h (HForceRetry d) now).
+Proof. exact gen_dep_eq. Qed.
+
+Theorem C16_source_is_model_default_success :
+  gen_dep_default_success_ack = default_success HAck /\ gen_dep_default_success_nack = default_success HNack /\
+  gen_dep_default_success_reject = default_success HReject /\ gen_dep_default_success_reschedule = default_success HReschedule /\
+  (forall d, gen_dep_default_success_retry = default_success (HRetry d)) /\
+  (forall d, gen_dep_default_success_force_retry = default_success (HForceRetry d)).
+Proof. exact gen_dep_default_success_eq. Qed.
+
 Print Assumptions C16_single_use.
 Print Assumptions C16_spent_handle_refuses.
 Print Assumptions C16_refusal_keeps_handle.
@@ -71,3 +99,6 @@ Print Assumptions C16_retry_within_budget.
 Print Assumptions C16_force_retry_ignores_budget.
 Print Assumptions C16_callback_order.
 Print Assumptions C16_eager_stops_body.
+Print Assumptions C16_source_is_model_handle.
+Print Assumptions C16_source_is_model_dependency.
+Print Assumptions C16_source_is_model_default_success.
